@@ -21,7 +21,7 @@
 (*    of PT_Sharing!Call - the receiver itself is returned (Mutable mode is *)
 (*    stated in harness/x01.py against PT_Builder!Fold: same final state).  *)
 (***************************************************************************)
-EXTENDS Naturals, Sequences, FiniteSets, TLC
+EXTENDS Integers, Sequences, FiniteSets, TLC
 
 Votes == {"T", "F", "N"}
 Resolve(vs) == LET s == {vs[i] : i \in DOMAIN vs} \ {"N"} IN IF s = {} THEN "N" ELSE IF s = {"T"} THEN "T" ELSE "F"
@@ -88,6 +88,44 @@ CustomCall(declared, given) ==
     ELSE [st |-> "FunctionException", ids |-> <<>>]
 \* what a caller may rely on: an accepted call of a function WITH a parameter list carries exactly the declared number of arguments
 ArityExact(declared, given) == LET r == CustomCall(declared, given) IN (declared # "none" /\ r.st = "ok") => r.ids = <<declared>>
+
+\* ---- window frames (WindowFrameAnalyticFunction.rows / .range).  A bound is <<"C">> (CURRENT ROW) or <<"P" | "F", n>> (n PRECEDING /
+\* FOLLOWING, n = -1: UNBOUNDED; 0 is "0 PRECEDING", not UNBOUNDED); a frame is [unit |-> "ROWS" | "RANGE", lo |-> bound, hi |-> bound | <<>>].
+\* WindowCall(hasOver, hasOrd, frames): the outcome of  fn(x) [.over(p)] [.orderby(o)] .rows/.range(frames[1]) .rows/.range(frames[2]) ...
+\* as the word / number tokens that follow the function's own brackets.  What the library does, with its deviations named:
+\*   DevFrameNeedsOver      - without over() / orderby() the frame (and the whole OVER clause) is dropped silently;
+\*   DevSecondFrameAttrErr  - a second rows / range call raises the builtin AttributeError, not a library exception;
+\*   DevFrameOrderUnchecked - bounds are not ordered: ROWS BETWEEN UNBOUNDED FOLLOWING AND UNBOUNDED PRECEDING is accepted (FrameLegal says
+\*                            which frames standard SQL accepts).
+BoundToks(b) == IF b = <<"C">> THEN <<"CURRENT", "ROW">>
+                ELSE <<IF b[2] < 0 THEN "UNBOUNDED" ELSE ToString(b[2]), IF b[1] = "P" THEN "PRECEDING" ELSE "FOLLOWING">>
+FrameToks(f) == IF f.hi = <<>> THEN <<f.unit>> \o BoundToks(f.lo) ELSE <<f.unit, "BETWEEN">> \o BoundToks(f.lo) \o <<"AND">> \o BoundToks(f.hi)
+WindowCall(hasOver, hasOrd, frames) ==
+    IF Len(frames) > 1 THEN [st |-> "AttributeError", ids |-> <<>>]
+    ELSE IF ~(hasOver \/ hasOrd) THEN [st |-> "ok", ids |-> <<>>]
+    ELSE [st |-> "ok", ids |-> <<"OVER">> \o (IF hasOver THEN <<"PARTITION", "BY">> ELSE <<>>) \o (IF hasOrd THEN <<"ORDER", "BY">> ELSE <<>>)
+                               \o (IF frames = <<>> THEN <<>> ELSE FrameToks(frames[1]))]
+\* the frame grammar of standard SQL, over tokens:  unit ( bound | BETWEEN bound AND bound ),  bound = CURRENT ROW | (UNBOUNDED | n) (PRECEDING | FOLLOWING)
+IsBoundToks(ts) == Len(ts) = 2 /\ (ts = <<"CURRENT", "ROW">> \/ (ts[2] \in {"PRECEDING", "FOLLOWING"} /\ ts[1] \notin {"CURRENT", "BETWEEN", "AND", "ROWS", "RANGE"}))
+IsFrameToks(ts) == /\ Len(ts) \in {3, 7} /\ ts[1] \in {"ROWS", "RANGE"}
+                   /\ IF Len(ts) = 3 THEN IsBoundToks(SubSeq(ts, 2, 3))
+                      ELSE ts[2] = "BETWEEN" /\ IsBoundToks(SubSeq(ts, 3, 4)) /\ ts[5] = "AND" /\ IsBoundToks(SubSeq(ts, 6, 7))
+\* rank of a bound on the row axis: UNBOUNDED PRECEDING < n PRECEDING < CURRENT ROW < n FOLLOWING < UNBOUNDED FOLLOWING
+BoundRank(b) == IF b = <<"C">> THEN 0 ELSE IF b[1] = "P" THEN (IF b[2] < 0 THEN -1000 ELSE -b[2]) ELSE (IF b[2] < 0 THEN 1000 ELSE b[2])
+FrameLegal(f) == /\ f.lo # <<"F", -1>>
+                 /\ IF f.hi = <<>> THEN BoundRank(f.lo) <= 0 ELSE f.hi # <<"P", -1>> /\ BoundRank(f.lo) <= BoundRank(f.hi)
+\* what a caller may rely on: an accepted call with a window (over / orderby) carries the one frame it was given, in the grammar, after the
+\* PARTITION BY / ORDER BY heads, and nothing else; no frame, no frame tokens
+FrameCarried(hasOver, hasOrd, frames) ==
+    LET r == WindowCall(hasOver, hasOrd, frames)
+        heads == 1 + (IF hasOver THEN 2 ELSE 0) + (IF hasOrd THEN 2 ELSE 0)
+    IN (r.st = "ok" /\ (hasOver \/ hasOrd)) =>
+          /\ r.ids[1] = "OVER"
+          /\ IF frames = <<>> THEN Len(r.ids) = heads
+             ELSE IsFrameToks(SubSeq(r.ids, heads + 1, Len(r.ids))) /\ SubSeq(r.ids, heads + 1, Len(r.ids)) = FrameToks(frames[1])
+\* ... and never a frame without the OVER that gives it a meaning
+NoBareFrame(hasOver, hasOrd, frames) == LET r == WindowCall(hasOver, hasOrd, frames) IN
+    (\E k \in DOMAIN r.ids : r.ids[k] \in {"ROWS", "RANGE"}) => r.ids[1] = "OVER"
 
 \* The render paths of one statement - str(), repr(), get_sql() without a context, get_sql(the context of its query class) - are one
 \* action: they yield one text (outs = the texts, in that order).
